@@ -103,6 +103,34 @@ func genCase(rt *rapid.T) Case {
 				Kind: rapid.SampledFrom([]string{"invite_join", "invite_join", "request_join"}).Draw(rt, "joinKind"), Ref: 1000,
 				Perm: rapid.IntRange(0, 5).Draw(rt, "joinPerm"), Variant: rapid.SampledFrom([]int{0, 0, 0, 1, 3, 6}).Draw(rt, "joinVariant")}}}
 			c.Steps = append(c.Steps, Step{F: inv}, Step{F: join})
+		case 6: // the owner hands the space over and, in the same hand-made record, goes on acting
+			second := aclgen.FContent{
+				Kind:   rapid.SampledFrom([]string{"ownership", "ownership", "perm_change", "perm_change", "accounts_add", "account_remove", "options", "invite", "invite_change", "invite_revoke", "request_accept", "request_decline", "perm_changes"}).Draw(rt, "hoKind"),
+				Target: rapid.IntRange(0, n-1).Draw(rt, "hoTarget"), T2: rapid.IntRange(0, n-1).Draw(rt, "hoT2"),
+				Perm: rapid.IntRange(0, 5).Draw(rt, "hoPerm"), Ref: rapid.IntRange(-2, 3).Draw(rt, "hoRef"), Variant: rapid.IntRange(0, 20).Draw(rt, "hoVariant")}
+			c.Steps = append(c.Steps, Step{F: &aclgen.Forge{Author: aclgen.AuthorOwner, Contents: []aclgen.FContent{
+				{Kind: "ownership", Target: rapid.IntRange(1, 4).Draw(rt, "hoNew"), Perm: rapid.SampledFrom([]int{aclgen.Admin, aclgen.Writer, aclgen.Reader}).Draw(rt, "hoOld")}, second}}})
+		case 7: // a join request is settled by another route; the requester's role changes; a manager then
+			// aims a hand-made accept / decline at the settled request
+			x := rapid.IntRange(5, n-1).Draw(rt, "sx")
+			c.Steps = append(c.Steps, Step{Op: &aclgen.Op{Kind: "invite", Actor: 0}}, Step{Op: &aclgen.Op{Kind: "request_join", Actor: x, Ref: -1}})
+			if rapid.Bool().Draw(rt, "sroute") {
+				c.Steps = append(c.Steps, Step{Op: &aclgen.Op{Kind: "invite_anyone", Actor: 0, Perm: rapid.SampledFrom([]int{aclgen.Reader, aclgen.Writer, aclgen.Admin}).Draw(rt, "sp")}},
+					Step{Op: &aclgen.Op{Kind: "invite_join", Actor: x, Ref: -1}})
+			} else {
+				c.Steps = append(c.Steps, Step{Op: &aclgen.Op{Kind: "add", Actor: 0, Target: x, Perm: rapid.SampledFrom([]int{aclgen.Reader, aclgen.Writer, aclgen.Admin}).Draw(rt, "sp2")}})
+			}
+			switch rapid.IntRange(0, 3).Draw(rt, "srole") {
+			case 0:
+				c.Steps = append(c.Steps, Step{Op: &aclgen.Op{Kind: "perm_change", Actor: 0, Target: x, Perm: aclgen.Admin}})
+			case 1:
+				c.Steps = append(c.Steps, Step{Op: &aclgen.Op{Kind: "ownership", Actor: 0, Target: x, Perm: aclgen.Admin}})
+			case 2:
+				c.Steps = append(c.Steps, Step{Op: &aclgen.Op{Kind: "perm_change", Actor: 0, Target: x, Perm: rapid.SampledFrom([]int{aclgen.Reader, aclgen.Writer}).Draw(rt, "sp3")}})
+			}
+			c.Steps = append(c.Steps, Step{F: &aclgen.Forge{Author: rapid.SampledFrom([]int{aclgen.AuthorAdmin, aclgen.AuthorAdmin, aclgen.AuthorOwner, 1, 2, 3}).Draw(rt, "sauthor"), Contents: []aclgen.FContent{{
+				Kind: rapid.SampledFrom([]string{"request_accept", "request_accept", "request_decline"}).Draw(rt, "skind"), Target: x,
+				Perm: rapid.IntRange(0, 5).Draw(rt, "sperm"), Ref: -1, Variant: rapid.SampledFrom([]int{15, 16, 18, 19}).Draw(rt, "svariant")}}}})
 		case 3: // the owner adds somebody directly (possibly an account with a pending request)
 			c.Steps = append(c.Steps, Step{Op: &aclgen.Op{Kind: "add", Actor: 0, Target: rapid.IntRange(5, n-1).Draw(rt, "added"), Perm: rapid.SampledFrom([]int{aclgen.Admin, aclgen.Writer, aclgen.Reader}).Draw(rt, "addperm")}})
 		case 2:
@@ -343,7 +371,7 @@ func run(c Case) (vstat.Outcome, error) {
 				accepted = st.Accepted
 				what = fmt.Sprintf("builder op %+v", *s.Op)
 			} else if s.F != nil {
-				author = ((s.F.Author % c.N) + c.N) % c.N
+				author = w.ResolveAuthor(s.F.Author)
 				f := *s.F
 				if vstat.KnownSignature(prop, sigAcceptLeave) {
 					// exclude exactly the known finding: an accept naming a pending leave request
